@@ -303,6 +303,19 @@ class Module:
             if len(node.targets) == 1 and isinstance(node.targets[0], ast.Name):
                 self.constants[node.targets[0].id] = node.value
                 self.const_nodes[node.targets[0].id] = node
+            elif len(node.targets) == 1 and isinstance(node.targets[0], ast.Tuple) and all(isinstance(t, ast.Name) for t in node.targets[0].elts):
+                # `A, B, C = <iterable>`: each name is the i-th item of it (element-wise when the right side is a display too)
+                names = [t.id for t in node.targets[0].elts]  # type: ignore[attr-defined]
+                val = node.value
+                for i, nm in enumerate(names):
+                    if isinstance(val, (ast.Tuple, ast.List)) and len(val.elts) == len(names) and not any(isinstance(e, ast.Starred) for e in val.elts):
+                        item: ast.expr = val.elts[i]
+                    else:
+                        item = ast.Subscript(value=ast.Call(func=ast.Name(id="tuple", ctx=ast.Load()), args=[val], keywords=[]), slice=ast.Constant(value=i), ctx=ast.Load())
+                        ast.copy_location(item, node)
+                        ast.fix_missing_locations(item)
+                    self.constants[nm] = item
+                    self.const_nodes[nm] = node
         elif isinstance(node, ast.AnnAssign):
             if isinstance(node.target, ast.Name) and node.value is not None:
                 self.constants[node.target.id] = node.value
